@@ -521,6 +521,8 @@ theorem dec_loop_eq (rest dst : List (BitVec 8)) (i : Nat) :
         = (pre.length : Int) + 2 * (((a :: b :: rest).length / 2 : Nat) : Int) + 1 := by
       simp only [List.length_append, List.length_cons, List.length_nil]; omega
     rw [e1, e2, e3] at hstep
+    -- `(a << 4) | b` in either operand order
+    try rw [BitVec.or_comm (hexVal b) (hexVal a <<< 4)]
     simpa only [List.append_assoc, List.cons_append, List.nil_append] using hstep
   | case4 c dst i =>
     intro pre fuel hroom hf
@@ -593,19 +595,17 @@ theorem trans_hexDecode_eq (dst src : List (BitVec 8)) (h : src.length / 2 ≤ d
   | .early d k bad => simp only [loopFlow]
   | .fin d k none =>
     have hev := decF_fin_none src dst 0 d k hr
-    have ht : Int.tmod (Int.ofNat src.length) 2 = ((src.length % 2 : Nat) : Int) := rfl
-    have : (Int.tmod (Int.ofNat src.length) 2 == 1) = false := by
-      rw [ht]; simp only [beq_eq_false_iff_ne, ne_eq]; omega
-    simp only [loopFlow, this, Bool.false_eq_true, if_false, errOf]
+    have ht : ((src.length : Nat) : Int).tmod 2 = ((src.length % 2 : Nat) : Int) := rfl
+    -- the parity test however it is written (`== 1`, `!= 0`)
+    simp only [loopFlow, Int.ofNat_eq_natCast, ht, hev, errOf]
+    simp
   | .fin d k (some c) =>
     obtain ⟨hodd, hidx⟩ := decF_fin_some src dst 0 d k c hr
     have hidx' := hidx []
     simp only [List.nil_append, List.length_nil, Int.natCast_zero, Int.zero_add] at hidx'
-    have ht : Int.tmod (Int.ofNat src.length) 2 = ((src.length % 2 : Nat) : Int) := rfl
-    have : (Int.tmod (Int.ofNat src.length) 2 == 1) = true := by
-      rw [ht]; simp only [beq_iff_eq]; omega
-    simp only [loopFlow, this, if_true, hidx', fromHexChar_ok, Res.bind_ok', rune_byte, errOf]
-    cases hexOk c <;> simp
+    have ht : ((src.length : Nat) : Int).tmod 2 = ((src.length % 2 : Nat) : Int) := rfl
+    simp only [loopFlow, Int.ofNat_eq_natCast, ht, hodd, hidx', fromHexChar_ok, Res.bind_ok', rune_byte, errOf]
+    cases hc : hexOk c <;> simp [hc]
 
 /-- Every byte: the model's `fromHexChar` against value and flag on the `BitVec` side. -/
 theorem hex_fact_raw (a : BitVec 8) :
